@@ -14,11 +14,14 @@ macro_rules! notation {
 	// rules used for reading
 	(read, $_r:ident, $_p:ident, $_t:ident $(<$_it:tt> $([$_iat:tt])?)? ;$_nw:ident = $nwe:expr) => { $nwe };
 	(read, $r:ident, $p:ident, Vec<$it:tt> $([$iat:tt])? $({$l:expr})? ) => {{
-		$( let len = notation!(read, $r, $p, $iat); )?
-		$( let len = $l; )?
-		let mut vec = Vec::with_capacity(len as usize);
-		for _ in 0..len {
+		// a count prefix gives the number of items; an explicit length gives the number of slots the items take up
+		$( let len = notation!(read, $r, $p, $iat) as usize; let slots = |_: &$it| 1usize; )?
+		$( let len = $l as usize; let slots = <$it as Slots>::slots; )?
+		let mut vec = Vec::with_capacity(len);
+		let mut taken = 0;
+		while taken < len {
 			let i = notation!(read, $r, $p, $it);
+			taken += slots(&i);
 			vec.push(i);
 		}
 		vec
@@ -209,6 +212,11 @@ macro_rules! notation {
 			}
 		}
 	}
+}
+
+/// The number of slots an item takes up in a table whose length is given in slots rather than items.
+pub(super) trait Slots {
+	fn slots(&self) -> usize { 1 }
 }
 
 pub(super) use notation;
